@@ -118,6 +118,8 @@ class FnContract:
     attrs: List[str] = field(default_factory=list)
     mutself: bool = False
     cells: List[str] = field(default_factory=list)   # rule R29
+    inlines: List[str] = field(default_factory=list)   # rule R31: library combinators replaced by their definition (`unwrap_or_else`)
+    opassigns: List[tuple] = field(default_factory=list)   # rule R32: (`|=`, method) compound assignment on a user type -> method call
     sig: ClauseBlock = field(default_factory=ClauseBlock)
     loops: Dict[int, LoopSpec] = field(default_factory=dict)
     closures: Dict[int, ClosureSpec] = field(default_factory=dict)
@@ -330,6 +332,11 @@ def parse_vc(path: str, text: str) -> List[FnContract]:
                 cur.mutself = True
             elif head == '@cell':
                 cur.cells += rest.split()
+            elif head == '@inline':
+                cur.inlines += rest.split()
+            elif head == '@opassign':
+                op_, m_ = rest.split()
+                cur.opassigns.append((op_, m_))
             elif head == '@replace':
                 a = _split_quoted(rest)
                 if len(a) < 3 or a[1] != '=>':
@@ -396,6 +403,8 @@ def _merge(a: FnContract, b: FnContract) -> FnContract:
     a.attrs = a.attrs + [x for x in b.attrs if x not in a.attrs]
     a.mutself = a.mutself or b.mutself
     a.cells = a.cells + [x for x in b.cells if x not in a.cells]
+    a.inlines = a.inlines + [x for x in b.inlines if x not in a.inlines]
+    a.opassigns = a.opassigns + [x for x in b.opassigns if x not in a.opassigns]
     a.loops.update(b.loops)
     a.closures.update(b.closures)
     a.inserts += b.inserts
